@@ -31,7 +31,8 @@ def main():
             out = p.stdout + p.stderr
             clauses = sorted(set(re.findall(r"violation-summary clause=(\S+) mech=None", out)))
             summary = [ln for ln in out.split("\n") if ln.startswith("[")]
-            det[f"{t}:{tier}"] = {"exit": p.returncode, "violated_clauses": clauses,
+            sd = os.environ.get("VERIF_SEED")
+            det[f"{t}:{tier}" + (f":seed{sd}" if sd else "")] = {"exit": p.returncode, "violated_clauses": clauses,
                                   "summary": summary[-1] if summary else out[-200:]}
             print(sid, t, tier, "exit", p.returncode, clauses, flush=True)
         meta["detection"] = det
